@@ -204,13 +204,15 @@ CHECKS["C12"].update(
 CHECKS["C18"].update(
     technique="Verus loop invariants on the extracted default PixelDataWriter::encode, PixelDataObject::frame_pixel_data, "
               "From<Vec<Fragments>> (any number of frames) and Fragments::new (any size); Kani bounded harnesses and a native enumeration on the "
-              "compiled code (stand-ins)",
+              "compiled code, incl. transcoding into every encoder target (stand-ins)",
     text="Unbounded proofs (any number of frames, any frame sizes) that the multi-frame encode driver and the Fragments conversion build the "
          "PS3.5 A.4 basic offset table, that Fragments::new yields even, equal-sized fragments holding the data plus zero padding, and that "
          "frame_pixel_data returns exactly the fragments the table assigns to a frame.",
     note="encode_frame, Fragments::len and the chunks_exact iterator chain are abstract callees with their std / documented meaning; the Kani "
          "and native Fragments units are BOUNDED (listed under coverage.bounded_units) and cross-check those callees on the compiled code. The "
-         "Total-Length attribute set in transcode.rs and native (unencapsulated) frames are not covered.")
+         "The transcoding clause (offset table, even fragments in the written stream, Number of Frames and the Total-Length attribute after "
+         "dicom_pixeldata::Transcode into each of the 3 encoder targets of this build) is decided only by the BOUNDED native unit C18.transcode; "
+         "native (unencapsulated) frames are not covered.")
 CHECKS["C25"].update(
     technique=CHECKS["C25"]["technique"] + "; native enumeration of PDUs of every type with an independent PS3.8 length reader (stand-in)",
     note="Per-type encode/decode bodies of write_pdu/read_pdu are outside both verifiers (Kani ICE, outside Verus' subset) and are covered only "
@@ -264,3 +266,24 @@ CHECKS["C05"].update(
 CHECKS["C26"].update(
     technique=CHECKS["C26"]["technique"].replace("of the writer (stand-ins)", "of the writer, and of the asynchronous writer and reader (stand-ins)"),
     note=CHECKS["C26"]["note"].replace("The asynchronous writer and reader are not covered;", "The asynchronous writer and reader are covered only by the native unit C26.async (no async support in either verifier);"))
+
+# --- notes brought in line with the units as built (end of session 2) ---
+CHECKS["C12"].update(
+    note="read_number is abstract in the Verus unit; to_encoded (fmt machinery), date-time values, time-zone offsets and range texts are covered "
+         "only by the native unit C12.native (bounded, never counted as proved); chrono constructors are assumed (listed).")
+CHECKS["C14"].update(
+    note="Only Tag::from_str is decided deductively; printing (Display) and the attribute selector syntax are covered only by the native unit "
+         "C14.text (bounded, never counted as proved); keyword lookup belongs to C15.")
+CHECKS["C15"].update(
+    note="std HashMap/HashSet, Option::or_else and the lazy static are assumed; the CONTENT of the standard tables (every entry, keyword and "
+         "SOP class UID found again through the index) is covered only by the native unit C15.exhaustive (an enumeration of the whole table, "
+         "not a deductive result).")
+CHECKS["C27"].update(
+    note="read_pdu is an abstract callee with an assumed prefix-stability axiom; BufReader is treated as transparent; the asynchronous receiver "
+         "and real associations over loopback TCP (several PDUs arriving in one transport read, or byte by byte) are covered only by the native unit "
+         "C27.association (bounded, never counted as proved).")
+CHECKS["C18"].update(note=CHECKS["C18"]["note"].replace("The The transcoding", "The transcoding"))
+CHECKS["C05"].update(
+    note=CHECKS["C05"]["note"].replace("C05.hostile / C05.hostile2", "C05.hostile / C05.hostile2 / C05.hostile3")
+         + " Attribute selector and range texts, the JPEG / deflated-frame / encapsulated-uncompressed decoders on damaged fragments, the deflated "
+           "data set transfer syntax and the file meta reader on its own are exercised only by C05.hostile3 (bounded).")
